@@ -33,12 +33,12 @@ __asm__(
 
 /* ops: Y yield, C create child-first + join, P create parent-first + join, M contended mutex, B barrier, W cond wait/signal pair,
    U uncond hand-off, J join of an unfinished thread */
-typedef struct { int nth; char seq[3][6]; int W, K; } prog_t;
+typedef struct { int nth; char seq[3][6]; int W, K; int oddstack; } prog_t;
 #define MAXP 300
 static prog_t P[2][MAXP]; static int NP[2];
 static void add(int tier, int nth, const char * a, const char * b, const char * c, int W, int K) {
   if (NP[tier] >= MAXP) return; prog_t * p = &P[tier][NP[tier]++]; memset(p, 0, sizeof *p);
-  p->nth = nth; strcpy(p->seq[0], a); strcpy(p->seq[1], b); if (c) strcpy(p->seq[2], c); p->W = W; p->K = K;
+  p->nth = nth; strcpy(p->seq[0], a); strcpy(p->seq[1], b); if (c) strcpy(p->seq[2], c); p->W = W; p->K = K; p->oddstack = 0;
 }
 static void build(void) {
   static int built; if (built) return; built = 1;
@@ -49,6 +49,12 @@ static void build(void) {
       int K = len <= 2 ? (tier ? 3 : 2) : 2; if (W == 3) K = len <= 2 ? 2 : 1; if (!tier && len > 2 && W == 2) K = 1;
       add(tier, 2, S2[i][0], S2[i][1], 0, W, K);
     }
+    /* a default stack size that is not a multiple of 16 (the library must still hand every function an ABI-aligned stack) */
+    add(tier, 2, "Y", "C", 0, 2, 1); P[tier][NP[tier] - 1].oddstack = 1; add(tier, 2, "P", "M", 0, 1, 1); P[tier][NP[tier] - 1].oddstack = 1;
+    add(tier, 2, "B", "B", 0, 2, 1); P[tier][NP[tier] - 1].oddstack = 1;
+    /* K: a thread ends while holding a value under a key whose destructor yields (the final switch away happens after a
+       suspension inside thread termination, possibly on another worker) */
+    add(tier, 2, "K", "Y", 0, 2, tier ? 3 : 2); add(tier, 2, "K", "K", 0, 2, 2); add(tier, 3, "K", "C", "Y", 2, tier ? 2 : 1); add(tier, 2, "KY", "YK", 0, 2, 1); add(tier, 2, "K", "M", 0, 1, 1);
     add(tier, 3, "Y", "C", "P", 2, tier ? 2 : 1); add(tier, 3, "B", "B", "B", 2, tier ? 2 : 1); add(tier, 3, "M", "M", "Y", 2, tier ? 2 : 1);
     add(tier, 3, "J", "P", "M", 2, tier ? 2 : 1);
     if (tier) { add(tier, 3, "Y", "C", "P", 3, 2); add(tier, 3, "B", "B", "B", 3, 2); add(tier, 3, "M", "M", "Y", 3, 2); }
@@ -57,7 +63,7 @@ static void build(void) {
 static int nprogs(int tier) { build(); return NP[tier]; }
 static void config(int tier, int prog, int * W, int * K) { build(); *W = P[tier][prog].W; *K = P[tier][prog].K; }
 static void describe(int tier, int prog, char * b, size_t n) {
-  build(); prog_t * p = &P[tier][prog]; int o = snprintf(b, n, "probe threads:");
+  build(); prog_t * p = &P[tier][prog]; int o = snprintf(b, n, "%sprobe threads:", p->oddstack ? "[default stack size 131080] " : "");
   for (int i = 0; i < p->nth; i++) o += snprintf(b + o, n - o, " t%d=%s", i, p->seq[i]);
 }
 
@@ -92,6 +98,10 @@ static void sw_usig(void * a) {
   long o = __sync_val_compare_and_swap(&ucell, 0, 1);
   if (o == 2) myth_uncond_signal(&unc);
 }
+static myth_key_t ykey; static volatile int ydtor_runs;
+static void ydtor(void * v) { (void)v; int w0 = mv_worker(); myth_yield(); myth_yield(); ydtor_runs++; if (mv_worker() != w0) mv_cover(16); }
+static void * keyed_body(void * a) { myth_setspecific(ykey, (void *)((long)a | 1)); return a; }
+static void sw_keyed_child(void * a) { myth_thread_t t = myth_create(keyed_body, a); void * r; myth_join(t, &r); MV_CHECK(r == a, "keyed child result wrong"); }
 static void sw_join_unfinished(void * a) { myth_thread_t t = myth_create(slow_body, a); void * r; myth_join(t, &r); MV_CHECK(r == a, "slow child result wrong"); }
 
 static void do_op(int me, char op, int idx) {
@@ -104,7 +114,8 @@ static void do_op(int me, char op, int idx) {
   case 'P': fn = sw_create_pf; kind = 2; break;      case 'M': fn = sw_mutex; kind = 3; break;
   case 'B': fn = sw_barrier; kind = 4; break;        case 'W': fn = sw_condwait; kind = 5; break;
   case 'w': fn = sw_condsig; kind = 5; break;        case 'U': fn = sw_uwait; kind = 6; break;
-  case 'u': fn = sw_usig; kind = 6; break;           default: fn = sw_join_unfinished; kind = 7; break;
+  case 'u': fn = sw_usig; kind = 6; break;           case 'K': fn = sw_keyed_child; kind = 1; break;
+  default: fn = sw_join_unfinished; kind = 7; break;
   }
   int w0 = mv_worker();
   long bad = probe_call(fn, (void *)(pat & 0xffffffff), pat);
@@ -125,7 +136,9 @@ static void * probe_thread(void * a) {
 
 static void run(int tier, int prog) {
   build(); cur = &P[tier][prog];
+  if (cur->oddstack) mv_set_default_stacksize(131080);
   mv_start(cur->W);
+  myth_key_create(&ykey, ydtor);
   myth_mutex_init(&mtx, 0); myth_mutex_init(&cm, 0); myth_cond_init(&cv, 0); myth_uncond_init(&unc);
   int nb = 0; for (int i = 0; i < cur->nth; i++) if (strchr(cur->seq[i], 'B')) nb++;
   myth_barrier_init(&bar, 0, nb ? nb : 1);
@@ -140,6 +153,6 @@ static void run(int tier, int prog) {
   mv_finish();
 }
 static const char * const cover_names[] = { "yield_same", "create_cf_same", "create_pf_same", "mutex_same", "barrier_same", "cond_same", "uncond_same", "join_same",
-  "yield_other", "create_cf_other", "create_pf_other", "mutex_other", "barrier_other", "cond_other", "uncond_other", "join_other", 0 };
-static uint64_t cover_required(int tier) { (void)tier; return 0xffff & ~(1 << 6); }
+  "yield_other", "create_cf_other", "create_pf_other", "mutex_other", "barrier_other", "cond_other", "uncond_other", "join_other", "thread_migrated_inside_its_key_destructor", 0 };
+static uint64_t cover_required(int tier) { (void)tier; return 0x1ffff & ~(1 << 6); }
 mc_harness_t mc_harness = { "C03", "context", nprogs, describe, config, run, cover_names, cover_required };
